@@ -100,9 +100,13 @@ type sockOpts struct {
 	Park    bool `json:"park"`
 	Joiner  bool `json:"joiner"`  // goroutines keep calling Join/Leave on the socket until shortly after its disconnect handler
 	SlowBye bool `json:"slowbye"` // the disconnecting handler takes 40 ms
+	SlowReg bool `json:"slowreg"` // the connection handler works for 20 ms before it registers its handlers
 }
 
-func newWorld(pingI, pingT time.Duration) (*world, error) {
+func newWorld(pingI, pingT time.Duration) (*world, error) { return newWorldAuth(pingI, pingT, 0) }
+
+// newWorldAuth: authDelay > 0 makes the server's Authenticator hold every handshake for that long.
+func newWorldAuth(pingI, pingT, authDelay time.Duration) (*world, error) {
 	w := &world{socks: map[string]*sockRec{}, nsps: []string{"/", "/b"}, parked: make(chan string, 64), pingI: pingI, pingT: pingT,
 		opts: map[string]sockOpts{}, byeStarted: make(chan struct{}, 8), admitEntered: make(chan struct{}, 8)}
 	cfg := &sio.ServerConfig{}
@@ -112,6 +116,9 @@ func newWorld(pingI, pingT time.Duration) (*world, error) {
 	}
 	cfg.EIO.PingInterval = pingI
 	cfg.EIO.PingTimeout = pingT
+	if authDelay > 0 {
+		cfg.EIO.Authenticator = func(http.ResponseWriter, *http.Request) bool { time.Sleep(authDelay); return true }
+	}
 	srv, err := rig.NewServer(cfg, "")
 	if err != nil {
 		return nil, err
@@ -153,6 +160,9 @@ func newWorld(pingI, pingT time.Duration) (*world, error) {
 			rec.connected++
 			opt := w.opts[rec.id]
 			w.mu.Unlock()
+			if opt.SlowReg {
+				time.Sleep(20 * time.Millisecond)
+			}
 			s.OnDisconnecting(func(r sio.Reason) {
 				w.mu.Lock()
 				rec.disconnecting = append(rec.disconnecting, string(r))
@@ -534,6 +544,16 @@ func runTrial(run *vk.Run, t trialSpec) {
 		inject(w, t.Cause, peer, nil)
 		time.Sleep(30 * time.Millisecond) // let the fault reach the server while the admission is held
 		close(gate)
+	case "slow-registration":
+		// the connection handler takes 20 ms before it registers the disconnect handlers; the cause arrives right
+		// after the CONNECT reply (the library waits for its connection handlers, bounded, before it reports a close)
+		res, err := peer.Connect("/", map[string]any{"slowreg": true}, 30*time.Second)
+		if err != nil || !res.OK {
+			run.Inconclusive(fmt.Sprintf("%s: connect: %v", t.id(), err))
+			return
+		}
+		inject(w, t.Cause, peer, nil)
+		vk.WaitUntil(5*time.Second, func() bool { w.mu.Lock(); defer w.mu.Unlock(); return len(w.order) > 0 })
 	case "join-storm":
 		// Join / Leave keep running on the socket from four goroutines while it is being closed
 		if !connectAndWait(map[string]any{"joiner": true}) {
@@ -582,7 +602,7 @@ func runTrial(run *vk.Run, t trialSpec) {
 		inject(w, t.Cause, peer, ss)
 	}
 	ends := causeEndsSession(t.Cause)
-	if !ends && t.Phase == "in-admission" && t.Cause == "server-disconnect-false" {
+	if !ends && (t.Phase == "in-admission" || t.Phase == "slow-registration") && t.Cause == "server-disconnect-false" {
 		ends = true // no socket to call Disconnect on yet: inject() closed the transport instead
 	}
 	if !ends && (t.Phase == "before-connect" || t.Phase == "in-middleware") {
@@ -595,7 +615,7 @@ func runTrial(run *vk.Run, t trialSpec) {
 		watchdog = 45 * time.Second
 	}
 	allowed := allowedFor(t.Cause)
-	if t.Phase == "before-connect" || t.Phase == "in-middleware" || t.Phase == "during-upgrade" || t.Phase == "in-admission" {
+	if t.Phase == "before-connect" || t.Phase == "in-middleware" || t.Phase == "during-upgrade" || t.Phase == "in-admission" || t.Phase == "slow-registration" {
 		for k := range allowedFor("client-transport-close", "tcp-cut", "garbage") {
 			allowed[k] = true
 		}
@@ -715,12 +735,12 @@ func main() {
 	run := vk.Start("C06", "fault_enumeration")
 	run.Rule("trials = termination cause {client namespace disconnect, client transport close, server Disconnect(false/true), DisconnectSockets, Server.Close, TCP cut, black-hole (ping timeout), protocol garbage, request with the wrong transport} " +
 		"x phase {before CONNECT, inside a parked namespace middleware, connected idle, mid-burst c->s, mid-burst s->c, during the polling->websocket upgrade, two namespaces, Join/Leave storm on the socket from 4 goroutines, second namespace's CONNECT parked in a middleware and released while the first socket runs its (slow) disconnecting handler, inside the admission of the socket (its first join held at a wrapped adapter)} x transport; " +
-		"scripted sessions cut at every k-th byte of the TCP stream in each direction; several causes at once; sessions being opened by 8 goroutines while Server.Close runs; distinct = (cause, phase, transport, number of disconnect handlers observed)")
+		"scripted sessions cut at every k-th byte of the TCP stream in each direction; several causes at once; sessions being opened by 8 goroutines while Server.Close runs; the Go client closing its Manager while its own (held) handshake is in flight; distinct = (cause, phase, transport, number of disconnect handlers observed)")
 	run.Assume("quiescence = sweep stable and clean, watchdog pingInterval+pingTimeout+15 s (server keeps the sid until user close handlers return)",
 		"the monitor registers its disconnect handlers inside the connection handler, as applications do")
 
 	causes := []string{"client-nsp-disconnect", "client-transport-close", "server-disconnect-false", "server-disconnect-true", "disconnect-sockets-true", "server-close", "tcp-cut", "blackhole", "garbage", "wrong-transport-poll"}
-	phases := []string{"before-connect", "in-middleware", "connected-idle", "mid-burst-c2s", "mid-burst-s2c", "during-upgrade", "two-namespaces", "join-storm", "parked-second-nsp", "in-admission"}
+	phases := []string{"before-connect", "in-middleware", "connected-idle", "mid-burst-c2s", "mid-burst-s2c", "during-upgrade", "two-namespaces", "join-storm", "parked-second-nsp", "in-admission", "slow-registration"}
 	var specs []trialSpec
 	for _, c := range causes {
 		for _, p := range phases {
@@ -810,6 +830,9 @@ func main() {
 			for _, cs := range multi {
 				runMulti(run, cs)
 			}
+		}
+		for rep := 0; rep < run.Pick(2, 12); rep++ {
+			runClientCloseDuringDial(run, rep%2 == 1)
 		}
 		for rep := 0; rep < run.Pick(10, 100); rep++ {
 			runHandshakeRace(run, rep)
@@ -923,6 +946,56 @@ func runHandshakeRace(run *vk.Run, rep int) {
 	}
 	run.Count("handshake_race_sessions_opened", opened.Load())
 	run.Distinct(fmt.Sprintf("handshake-race/opened=%s", map[bool]string{true: "some", false: "none"}[opened.Load() > 0]))
+}
+
+// runClientCloseDuringDial: the GO CLIENT ends the connection while its own handshake is still in flight (the
+// server's Authenticator holds the handshake for 150 ms; Manager.Close is called 50 ms in). Whatever the client
+// does with the connection it was building, the server must not be left with a session or a socket that nobody
+// will ever close: at quiescence (ping 1 s + 1 s) every socket that connected has had its disconnect handler and
+// the session store is empty.
+func runClientCloseDuringDial(run *vk.Run, reconnecting bool) {
+	run.Eval(1)
+	w, err := newWorldAuth(time.Second, time.Second, 150*time.Millisecond)
+	if err != nil {
+		run.Inconclusive(err.Error())
+		return
+	}
+	defer w.close()
+	mcfg := rig.ManagerConfig("websocket")
+	mcfg.ReconnectionDelay = rig.Dur(10 * time.Millisecond)
+	mcfg.ReconnectionDelayMax = rig.Dur(10 * time.Millisecond)
+	mcfg.RandomizationFactor = rig.F32(0)
+	m := sio.NewManager(w.srv.URL, mcfg)
+	s := m.Socket("/", nil)
+	var connects atomic.Int32
+	s.OnConnect(func() { connects.Add(1) })
+	s.Connect()
+	if reconnecting {
+		// let the first connection complete, drop it from the server side, close during the reconnection's dial
+		if !vk.WaitUntil(20*time.Second, func() bool { return connects.Load() >= 1 }) {
+			run.Inconclusive("client-close-during-dial: no first connect")
+			m.Close()
+			return
+		}
+		w.srv.IO.Of("/").DisconnectSockets(true)
+		time.Sleep(10*time.Millisecond + 50*time.Millisecond)
+	} else {
+		time.Sleep(50 * time.Millisecond)
+	}
+	if !vk.Watchdog(20*time.Second, func() { m.Close() }) {
+		run.Violation(vk.Violation{Sub: "no-disconnect", Fields: map[string]any{"cause": "client-manager-close", "phase": "during-dial", "transport": "websocket"},
+			What: "Manager.Close() did not return within 20 s while a handshake was in flight", Witness: map[string]any{"stacks": vk.DumpGoroutines("c06-close-during-dial")}})
+		return
+	}
+	time.Sleep(300 * time.Millisecond) // the held handshake completes after the Close
+	res := w.sweep(0, "", nil, true, 8*time.Second)
+	report(run, map[string]any{"cause": "client-manager-close", "phase": "during-dial", "transport": "websocket", "reconnecting": reconnecting},
+		map[string]any{"trial": fmt.Sprintf("client-close-during-dial/reconnecting=%v", reconnecting), "client_socket_connected_after_close": s.Connected(), "seed": run.Seed()}, res, true)
+	if s.Connected() {
+		run.Violation(vk.Violation{Sub: "leftover-socket", Fields: map[string]any{"cause": "client-manager-close", "phase": "during-dial", "transport": "websocket", "side": "client"},
+			What: "the client socket of a closed Manager reports Connected() == true", Witness: map[string]any{"reconnecting": reconnecting}})
+	}
+	run.Distinct(fmt.Sprintf("client-close-during-dial/reconnecting=%v", reconnecting))
 }
 
 func runMulti(run *vk.Run, causes []string) {
